@@ -557,7 +557,7 @@ class EnumType(DataType):
 
     def compatible(self, other):
         for m in self._enum.members:
-            other(m)
+            other.validate(m)  # validate: also check the limits of other
 
 
 class BLOBType(DataType):
@@ -748,8 +748,8 @@ class BoolType(DataType):
         return repr(value)
 
     def compatible(self, other):
-        other(False)
-        other(True)
+        other.validate(False)  # validate: also check the limits of other
+        other.validate(True)
 
 
 Stub.fix_datatypes()
